@@ -108,9 +108,10 @@ impl Search {
     /// let mut search = Search::new(&board, &evaluator, None);
     /// ```
     pub fn search(&mut self, evaluator: &impl Evaluator, max_depth: Option<Depth>) {
-        // Uses a heuristic to determine the maximum time to spend on a move
-        self.start();
+        // The running flag is set when the search is created, so that a stop that arrives before
+        // this thread gets going is not overwritten.
 
+        // Uses a heuristic to determine the maximum time to spend on a move
         self.limits.time_management_timer = match self.board.current_turn {
             Color::White => {
                 self.limits.white_time.unwrap_or(0) / 20
@@ -726,23 +727,6 @@ impl Search {
     /// ```
     pub const fn get_nodes(&self) -> NodeCount {
         self.info.nodes
-    }
-
-    /// Sets the `AtomicBool` that is used to determine if the search should continue to true
-    /// Normally called by the search function.
-    ///
-    /// # Example
-    /// ```
-    /// let board = BoardBuilder::construct_starting_board().build();
-    /// let evaluator = SimpleEvaluator::new();
-    /// let mut search = Search::new(&board, &evaluator, None);
-    /// search.stop();
-    /// assert_eq!(search.is_running(), false);
-    /// search.start();
-    /// assert_eq!(search.is_running(), true);
-    /// ```
-    fn start(&self) {
-        self.running.store(true, Ordering::Relaxed);
     }
 
     /// Sets the `AtomicBool` that is used to determine if the search should continue to false
